@@ -199,8 +199,11 @@ fn check_c16(text: &str, a: &ast::Aidl, st: &mut Stats) -> Vec<String> {
         positions.push((li + 1, 0));
     }
     let nlines = text.split('\n').count();
-    positions.extend([(0, 0), (0, 1), (nlines + 1, 1), (nlines + 5, 7), (usize::MAX, usize::MAX), (1, usize::MAX)]);
-    for level in 0u8..3 {
+    // the very first and the very last request are the same for every document (and often a hit in one document and a
+    // miss in the next): an answer must never be carried over from another tree
+    positions.insert(0, (1, 10));
+    positions.extend([(0, 0), (0, 1), (nlines + 1, 1), (nlines + 5, 7), (usize::MAX, usize::MAX), (1, usize::MAX), (1, 10)]);
+    for level in [2u8, 0, 1, 2] {
         let want: Vec<&Visit> = all.iter().filter(|v| v.level <= level).collect();
         for &lc in &positions {
             let expect = want.iter().find(|v| rwalk::contains_lc(&v.name_range, lc)).map(|v| (v.kind, v.addr));
